@@ -704,6 +704,9 @@ class Hist:
                 for x, y in zip(getattr(a.model, lst), getattr(new_model, lst)):
                     if x is y:
                         d.append(f"{lst}: {x.id} is shared between original and copy")
+                for y in getattr(new_model, lst):
+                    if getattr(y, "_model", None) is not new_model:
+                        d.append(f"{lst}: {y.id} of the copy does not point at the copy")
             if new_model.solver is a.model.solver:
                 d.append("solver object shared")
             if d:
@@ -1121,6 +1124,12 @@ class Hist:
 
     def do_slim_optimize(self, a, op, env):
         kw = {}
+        if op.get("open_first") and a.model.reactions.has_id(op["open_first"]) and not a.model._contexts:
+            r = a.model.reactions.get_by_id(op["open_first"])
+            r.bounds = (r.lower_bound, INF) if a.ref.direction == "max" else (-INF, r.upper_bound)
+            x = a.ref.rxns[op["open_first"]]
+            x["lb"], x["ub"] = r.lower_bound, r.upper_bound
+            env.pre.rxns[op["open_first"]]["lb"], env.pre.rxns[op["open_first"]]["ub"] = r.lower_bound, r.upper_bound
         if "error_value" in op:
             kw["error_value"] = op["error_value"]
         return a.model.slim_optimize(**kw)
@@ -1694,6 +1703,8 @@ def make_swarm(rng, prop, run_cfg):
             weights.pop(k, None)
         for k in ("add_mets", "sub_mets"):
             weights[k] = weights.get(k, 3) * 3
+    if prop == "C04" and rng.random() < 0.12:
+        sw["open_ended"] = True  # unbounded problems are rare among generated networks: these runs open reactions towards infinity
     if not weights:
         weights = {"set_bounds": 1}
     sw["weights"] = weights
@@ -2079,7 +2090,10 @@ def gen_op(rng, H, sw):
             op["raise_error"] = True
     elif k == "slim_optimize":
         if rng.random() < 0.3:
-            op["error_value"] = rng.choice([None, -1.0, 0, 0.0, False, 7.5])
+            op["error_value"] = rng.choice([None, None, -1.0, 0, 0.0, False, 7.5])
+        if sw.get("open_ended") and rids and rng.random() < 0.5:
+            # C04 runs that aim at unbounded problems: first open the objective reaction (or any reaction) towards infinity
+            op["open_first"] = rid()
     elif k == "solver":
         op["name"] = rng.choice(["glpk", "glpk_exact"])
     elif k == "tolerance":
